@@ -7,6 +7,7 @@ CONSTANT Deltas <- DeltasUns
 CONSTANT Factors <- FactorsU
 CONSTANT Divisors <- DivUns
 CONSTANT Halves <- HalvesUns
+CONSTANT Thrower = FALSE
 CONSTANT MaxLen = 0
 INVARIANTS TypeOK ExactlyOnce NewValue
 PROPERTY ChangeNotifies
